@@ -57,6 +57,7 @@ def pick(r, k: int, max_bytes: int = 400_000, min_files: int = 1) -> List[str]:
     return cand[:k]
 
 
+@lru_cache(maxsize=None)
 def all_py_files(limit_bytes: int = 300_000) -> List[str]:
     out = []
     for p, n, size in roots():
